@@ -1228,17 +1228,37 @@ package engine
 //@ extern unicode/utf8.ValidRune
 //@   pure
 //@   ensures result ==> 0 <= r && r <= 1114111
+//@   ensures[exactly-the-unicode-scalar-values] result <==> (0 <= r && r < 55296) || (57343 < r && r <= 1114111)
 
 //@ func CharCode
 //@   property C16
 //@   nosafety
 //@   at-call Unify#1 requires[char-of-exactly-that-code] a2 is Atom && (a2 as Atom) == local(cd, Integer)
 //@   at-call Unify#2 requires[code-of-the-single-character] a2 is Integer && len(local(rs, []rune)) == 1 && (a2 as Integer) == local(rs, []rune)[0]
+//@   let chr = resolve(env, char)
+//@   let cdr = resolve(env, code)
+//@   bind ans1 = Unify#1
+//@   bind ans2 = Unify#2
+//@   ensures[every-code-point-that-is-a-character-has-its-character] chr is Variable && cdr is Integer && 0 <= (cdr as Integer) && (cdr as Integer) <= 1114111 &&
+//@       !(55296 <= (cdr as Integer) && (cdr as Integer) <= 57343) ==> called(ans1) && result == ans1
+//@   ensures[every-single-character-atom-has-its-code] chr is Atom && (cdr is Variable || cdr is Integer) && len(runes(Atom.String(chr as Atom))) == 1 ==> called(ans2) && result == ans2
+//@   at-call Unify requires[an-answer-only-in-the-two-modes] chr is Variable || chr is Atom
+//@   at-call Unify requires[given-a-code-the-first-argument-receives-the-character-with-that-code-which-is-a-unicode-scalar-value] chr is Variable ==> (a1 == char || a1 == chr) && cdr is Integer &&
+//@       a2 is Atom && (a2 as Atom) == (cdr as Integer) && 0 <= (cdr as Integer) && (cdr as Integer) <= 1114111 && !(55296 <= (cdr as Integer) && (cdr as Integer) <= 57343)
+//@   at-call Unify requires[given-a-character-the-second-argument-receives-its-code] chr is Atom ==> (a1 == code || a1 == cdr) && a2 is Integer &&
+//@       len(runes(Atom.String(chr as Atom))) == 1 && (a2 as Integer) == runes(Atom.String(chr as Atom))[0]
+//@   at-call Unify requires[the-answer-goes-to-the-caller-s-continuation-under-the-caller-s-bindings] a0 == vm && a3 == k && a4 == env
 
 //@ func AtomLength
 //@   property C16
 //@   nosafety
 //@   at-call Unify requires[length-in-characters] a1 == length && a2 is Integer && (a2 as Integer) == len(runes(Atom.String(local(a, Atom))))
+//@   let whole = resolve(env, atom)
+//@   let len0 = resolve(env, length)
+//@   bind ans = Unify#1
+//@   ensures[every-atom-has-its-length-also-when-a-non-negative-length-is-given] whole is Atom && (len0 is Variable || (len0 is Integer && (len0 as Integer) >= 0)) ==> called(ans) && result == ans
+//@   at-call Unify requires[length-of-the-atom-that-was-given] whole is Atom && a2 is Integer && (a2 as Integer) == len(runes(Atom.String(whole as Atom)))
+//@   at-call Unify requires[the-answer-goes-to-the-caller-s-continuation-under-the-caller-s-bindings] a0 == vm && a3 == k && a4 == env
 
 //@ func Succ
 //@   property C16
@@ -1247,22 +1267,46 @@ package engine
 //@   at-call Unify#1 requires[predecessor] local(s, Integer) > 0 && a2 is Integer && (a2 as Integer) == local(s, Integer) - 1
 //@   at-call Unify#2 requires[successor] aerr == nil && a2 == r && r is Integer && (r as Integer) == local(x, Integer) + 1
 //@   at-call Unify#3 requires[successor] aerr == nil && a2 == r && r is Integer && (r as Integer) == local(x, Integer) + 1
+//@   let xr = resolve(env, x)
+//@   let sr = resolve(env, s)
+//@   bind pre = Unify#1
+//@   bind suc1 = Unify#2
+//@   bind suc2 = Unify#3
+//@   ensures[every-positive-integer-has-a-predecessor] xr is Variable && sr is Integer && (sr as Integer) > 0 ==> called(pre) && result == pre
+//@   ensures[every-natural-number-below-the-limit-has-a-successor] xr is Integer && (xr as Integer) >= 0 && (xr as Integer) < 9223372036854775807 && sr is Variable ==> called(suc1) && result == suc1
+//@   ensures[every-natural-number-below-the-limit-has-a-successor-to-compare-with] xr is Integer && (xr as Integer) >= 0 && (xr as Integer) < 9223372036854775807 && sr is Integer && (sr as Integer) >= 0 ==> called(suc2) && result == suc2
+//@   at-call Unify requires[an-answer-only-when-one-of-the-two-is-a-number] xr is Variable || xr is Integer
+//@   at-call Unify requires[given-only-the-successor-the-first-argument-receives-its-predecessor] xr is Variable ==> (a1 == x || a1 == xr) && sr is Integer && (sr as Integer) > 0 && a2 is Integer && (a2 as Integer) == (sr as Integer) - 1
+//@   at-call Unify requires[given-the-number-the-second-argument-receives-its-successor] xr is Integer ==> (a1 == s || a1 == sr) && (xr as Integer) >= 0 && a2 is Integer && (a2 as Integer) == (xr as Integer) + 1
+//@   at-call Unify requires[the-answer-goes-to-the-caller-s-continuation-under-the-caller-s-bindings] a0 == vm && a3 == k && a4 == env
 
 //@ func Between
 //@   property C16
 //@   nosafety
 //@   onk[value-within-bounds] low <= local(value, Integer) && local(value, Integer) <= high
+//@   frozen vm, upper, k, env
+//@   let lo = resolve(env, lower)
+//@   let hi = resolve(env, upper)
+//@   let v = resolve(env, value)
+//@   bind alts = Delay#1
+//@   onk[only-a-value-within-the-given-bounds-is-accepted] lo is Integer && hi is Integer && v is Integer && (lo as Integer) <= (v as Integer) && (v as Integer) <= (hi as Integer)
+//@   nok[every-value-within-the-given-bounds-is-accepted] !(lo is Integer && hi is Integer && v is Integer && (lo as Integer) <= (v as Integer) && (v as Integer) <= (hi as Integer))
+//@   ensures[a-non-empty-range-is-enumerated] lo is Integer && hi is Integer && v is Variable && (lo as Integer) <= (hi as Integer) ==> called(alts) && result == alts
+//@   at-call Delay requires[the-first-alternative-is-the-lower-bound] lo is Integer && local(low, Integer) == (lo as Integer)
+//@   at-call Delay requires[a-second-alternative-exactly-when-the-range-goes-on] lo is Integer && hi is Integer && len(a0) == ite((lo as Integer) < (hi as Integer), 2, 1)
 
 //@ func Between$1
 //@   property C16
 //@   nosafety
 //@   at-call Unify requires[yields-low] a1 == value && a2 is Integer && (a2 as Integer) == low
+//@   at-call Unify requires[the-answer-goes-to-the-caller-s-continuation-under-the-caller-s-bindings] a0 == vm && a3 == k && a4 == env
 
 //@ func Between$2
 //@   property C16
 //@   requires low < 9223372036854775807
 //@   nosafety
 //@   at-call Between requires[continues-above-low] a1 is Integer && (a1 as Integer) == low + 1 && a2 == upper && a3 == value && a4 == k
+//@   at-call Between requires[continues-under-the-caller-s-bindings] a0 == vm && a5 == env
 
 //@ ---------------------------------------------------------------- no crash: thin safety contracts (C05)
 
@@ -1996,17 +2040,25 @@ package engine
 //@   bind d = Delay#1
 //@   loop 1 invariant true
 //@   loop 2 invariant true
+//@   loop 2 invariant[end-positions-start-at-the-start-position-and-each-one-passed-has-added-an-alternative] local(i, int) <= local(j, int) && len(ks) >= local(j, int) - local(i, int)
 //@   at-call checkPositiveInteger#1 requires[before-is-checked] a0 == before && a1 == env
 //@   at-call checkPositiveInteger#2 requires[length-is-checked] a0 == length && a1 == env
 //@   at-call checkPositiveInteger#3 requires[after-is-checked] a0 == after && a1 == env
 //@   ensures[every-split-is-offered-unless-an-argument-is-in-error] whole is Atom && called(e1) && e1 == nil && called(e2) && e2 == nil && called(e3) && e3 == nil &&
 //@       (sub is Variable || sub is Atom) ==> called(d) && result == d
 //@   ensures[the-whole-must-be-an-atom] !(whole is Atom) ==> !called(d)
+//@   frozen vm, k, env
+//@   at-call tuple requires[the-pattern-is-the-caller-s-four-arguments] len(a0) == 4 && a0[0] == before && a0[1] == length && a0[2] == after && a0[3] == subAtom
+//@   at-call Delay requires[every-collected-alternative-is-offered] a0 == ks
+//@   at-call Delay requires[every-start-position-up-to-the-end-of-the-text-in-characters-has-been-tried] whole is Atom && local(i, int) > len(runes(Atom.String(whole as Atom)))
+//@   loop 1 maintains[every-end-position-up-to-the-end-of-the-text-in-characters-has-been-tried] whole is Atom && j > len(runes(Atom.String(whole as Atom)))
 
 //@ func SubAtom$1
 //@   property C16
 //@   nosafety
 //@   at-call Unify requires[each-alternative-offers-its-own-split-to-the-caller-s-pattern] a0 == vm && a1 == pattern && a3 == k && a4 == env
+//@   at-call tuple requires[the-split-is-before-length-after-sub-atom-in-this-order] len(a0) == 4 && a0[0] is Integer && (a0[0] as Integer) == before && a0[1] is Integer && (a0[1] as Integer) == length &&
+//@       a0[2] is Integer && (a0[2] as Integer) == after && a0[3] is Atom && (a0[3] as Atom) == subAtom
 
 //@ func Bool
 //@   property C12
